@@ -106,8 +106,18 @@ pub fn spawn_peer(wire: Wire, peer_log: Arc<Mutex<PeerLog>>, cfg: PeerCfg) -> to
 		let mut live_subs: Vec<Value> = Vec::new();
 		let mut next_val = 1_000_000u64;
 		let mut next_sub = 500u64;
+		// subscription ids whose unsubscribe call has been seen: the server may hand them out again at once
+		let free_ids: Mutex<Vec<Value>> = Mutex::new(Vec::new());
+		let unsub_seen: Mutex<Vec<Value>> = Mutex::new(Vec::new());
 		let register = |m: super::OutMsg, outstanding: &mut Vec<(Vec<(Option<u64>, Value)>, bool, bool)>| match parse_out(&m.text) {
-			Parsed::Call { id, method, params } => outstanding.push((vec![(nonce_of(&params), id)], method == "sub", false)),
+			Parsed::Call { id, method, params } => {
+				if method == "unsub" {
+					if let Some(sid) = params.as_array().and_then(|a| a.first()) {
+						unsub_seen.lock().unwrap().push(sid.clone());
+					}
+				}
+				outstanding.push((vec![(nonce_of(&params), id)], method == "sub", false))
+			}
 			Parsed::Batch(es) => {
 				let ids: Vec<(Option<u64>, Value)> = es
 					.iter()
@@ -129,6 +139,17 @@ pub fn spawn_peer(wire: Wire, peer_log: Arc<Mutex<PeerLog>>, cfg: PeerCfg) -> to
 					None => break,
 				}
 				continue;
+			}
+			// unsubscribe calls seen since the last turn: the subscription is gone on the server from here on; it may
+			// tell the client so (crossing the unsubscribe on the wire) and may hand the id out again at once
+			let seen: Vec<Value> = unsub_seen.lock().unwrap().drain(..).collect();
+			for sid in seen {
+				live_subs.retain(|s| s != &sid);
+				if rt::chance("crossing_close", 1, 3) {
+					rt::probe("close_crossing_unsubscribe");
+					wire.push_text(super::sub_close("n", &sid, &json!("bye")));
+				}
+				free_ids.lock().unwrap().push(sid);
 			}
 			let act = rt::draw("peer-act", 10);
 			match act {
@@ -160,7 +181,15 @@ pub fn spawn_peer(wire: Wire, peer_log: Arc<Mutex<PeerLog>>, cfg: PeerCfg) -> to
 							Ans::Err(-32000 - (next_val % 90) as i64, format!("e{next_val}"), if next_val % 2 == 0 { Some(json!({"n": next_val})) } else { None })
 						} else if is_sub {
 							next_sub += 1;
-							let sid = if next_sub % 2 == 0 { json!(next_sub) } else { json!(format!("s{next_sub}")) };
+							let reuse = !free_ids.lock().unwrap().is_empty() && rt::chance("reuse_sub_id", 1, 2);
+							let sid = if reuse {
+								rt::probe("sub_id_reused");
+								free_ids.lock().unwrap().remove(0)
+							} else if next_sub % 2 == 0 {
+								json!(next_sub)
+							} else {
+								json!(format!("s{next_sub}"))
+							};
 							live_subs.push(sid.clone());
 							Ans::Ok(sid)
 						} else {
@@ -191,7 +220,17 @@ pub fn spawn_peer(wire: Wire, peer_log: Arc<Mutex<PeerLog>>, cfg: PeerCfg) -> to
 							let j = rt::draw("perm", parts.len() as u32) as usize;
 							order.push(parts.remove(j));
 						}
-						let text = format!("[{}]", order.iter().map(|p| p.0.as_str()).collect::<Vec<_>>().join(","));
+						let mut texts: Vec<String> = order.iter().map(|p| p.0.clone()).collect();
+						// the server may pack notifications of live subscriptions into the same array
+						if !live_subs.is_empty() && rt::chance("notifs_in_batch_reply", 1, 3) {
+							rt::probe("notifs_in_batch_reply");
+							for _ in 0..rt::draw_range("notifs_in_batch_n", 1, 3) {
+								next_val += 1;
+								let at = rt::draw("notif_at", texts.len() as u32 + 1) as usize;
+								texts.insert(at, sub_notif("n", rt::pick("ls", &live_subs), &json!(next_val)));
+							}
+						}
+						let text = format!("[{}]", texts.join(","));
 						let seq = wire.push_text(text);
 						for (_, mut a) in order {
 							a.push_seq = seq;
@@ -373,8 +412,10 @@ pub async fn scenario() {
 	if let Some(p) = ping {
 		builder = builder.enable_ws_ping(p);
 	}
+	let sub_buf = *rt::pick("sub_buf", &[1024usize, 1, 2]);
 	let client = Arc::new(
 		builder
+			.max_buffer_capacity_per_subscription(sub_buf)
 			.max_concurrent_requests(max_conc)
 			.id_format(if id_kind_str { IdKind::String } else { IdKind::Number })
 			.request_timeout(req_timeout)
@@ -398,6 +439,11 @@ pub async fn scenario() {
 			for op in plan {
 				let rec = run_op(&client, ti, &op, &nonce_ctr, &mut held).await;
 				ops.lock().unwrap().push(rec);
+				// a handle that goes away makes the background task unsubscribe on its own, while other work is in flight
+				if !held.is_empty() && rt::chance("drop_held", 1, 3) {
+					rt::probe("sub_handle_dropped");
+					held.pop();
+				}
 			}
 			drop(held);
 		}));
